@@ -110,6 +110,12 @@ def r15_2(ctx: Ctx) -> None:
     for r in rets:
         rn = q.node_for(f, r)
         bypass = cfg.reaches(cfg.entry, rn, avoid=[q.node_for(f, s) for s in sets])
+        if bypass:
+            # an explicit completeness test before the return: `if "emptystream" not in f: raise`
+            for cd, pol in q.facts_at(f, r):
+                if isinstance(cd, ast.Compare) and len(cd.ops) == 1 and isinstance(cd.left, ast.Constant) and cd.left.value == "emptystream":
+                    if (isinstance(cd.ops[0], ast.NotIn) and not pol) or (isinstance(cd.ops[0], ast.In) and pol):
+                        bypass = False
         ctx.check(not bypass, "R15.2", f, r, "'emptystream' definitely assigned before the record is returned",
                   "_make_file_info can return a record without 'emptystream' (source that is neither link, directory nor regular file): "
                   "write() has already appended the record to files_info.files when the KeyError is raised, and close() then fails",
